@@ -397,4 +397,386 @@ Proof.
   destruct (Nat.ltb_spec (mnsize_of m + slack) (length (prab_bytes m data r))); [lia|].
   unfold buffer_after. rewrite prab_roundtrip by assumption. reflexivity.
 Qed.
+
+(* ---- text framing ------------------------------------------------------------------------------------- *)
+Lemma encode62_nobar z : Forall (fun c => c <> bar) (encode62 z).
+Proof. apply plain_not_bar. apply encode62_plain. Qed.
+
+Lemma framed_parse magic kid z :
+  Forall (fun c => c <> bar) magic -> Forall (fun c => c <> bar) kid ->
+  cm (magic ++ [bar] ++ kid ++ [bar] ++ encode62 z ++ [bar]) magic bar = Some (kid ++ [bar] ++ encode62 z ++ [bar]) /\
+  split_at bar (kid ++ [bar] ++ encode62 z ++ [bar]) = Some (kid, encode62 z ++ [bar]) /\
+  split_at bar (encode62 z ++ [bar]) = Some (encode62 z, []).
+Proof.
+  intros Fm Fk. repeat split.
+  - apply (cm_magic magic bar _ Fm).
+  - apply (split_at_app bar kid _ Fk).
+  - apply (split_at_app bar (encode62 z) [] (encode62_nobar z)).
+Qed.
+
+Lemma str_sig_nobar : Forall (fun c => c <> bar) str_sig.
+Proof. repeat constructor; discriminate. Qed.
+Lemma str_enc_nobar : Forall (fun c => c <> bar) str_enc.
+Proof. repeat constructor; discriminate. Qed.
+
+Lemma verify_text_sig_text m ksig heap data kid s :
+  Forall (fun c => c <> bar) kid -> kid_matches ksig kid = true ->
+  verify_text H1 H2 m ksig heap data (sig_text kid s) = verify_core H1 H2 m heap data s.
+Proof.
+  intros Fk KM. destruct (framed_parse str_sig kid s str_sig_nobar Fk) as (P1 & P2 & P3).
+  unfold verify_text, sig_text. rewrite P1, P2, KM. cbn [negb]. rewrite P3, base62_roundtrip. reflexivity.
+Qed.
+
+Theorem verify_text_accept_implies m ksig heap data t :
+  verify_text H1 H2 m ksig heap data t = Accept ->
+  exists s1 kid s2 vs rest v,
+    cm t str_sig bar = Some s1 /\ split_at bar s1 = Some (kid, s2) /\ kid_matches ksig kid = true /\
+    split_at bar s2 = Some (vs, rest) /\ decode62 vs = Some v /\ verify_core H1 H2 m heap data v = Accept.
+Proof.
+  unfold verify_text. intros E.
+  destruct (cm t str_sig bar) as [s1|] eqn:E1; [|discriminate].
+  destruct (split_at bar s1) as [[kid s2]|] eqn:E2; [|discriminate].
+  destruct (kid_matches ksig kid) eqn:KM; cbn [negb] in E; [|discriminate].
+  destruct (split_at bar s2) as [[vs rest]|] eqn:E3; [|discriminate].
+  destruct (decode62 vs) as [v|] eqn:E4; [|discriminate].
+  exists s1, kid, s2, vs, rest, v. repeat split; auto.
+Qed.
+
+(* ---- sign then verify ------------------------------------------------------------------------------------- *)
+Variable qr : Z -> bool.
+Variable roots : Z -> list Z.
+
+Definition roots_sound (m : Z) : Prop := forall a s, In s (roots a) -> ((s * s) mod Z.abs m = a mod Z.abs m)%Z.
+Definition digest_nonzero : Prop := forall x, ~ Forall (fun b => b = 0%N) (firstn md (H1 x)).
+Definition kid_ok (ksig : bytes) : Prop :=
+  let kid := keyid (Z.to_N TMCG_KEYID_SIZE) ksig in Forall (fun c => c <> bar) kid /\ kid_matches ksig kid = true.
+
+Lemma be2n_zero bs : be2n bs = 0%N -> Forall (fun b => b = 0%N) bs.
+Proof.
+  induction bs as [|x l IH] using rev_ind; intros E; [constructor|].
+  rewrite be2n_snoc in E. apply Forall_app. split; [apply IH; lia|]. constructor; [lia|constructor].
+Qed.
+
+Lemma sign_pad_nonzero m data r : digest_nonzero -> sign_pad H1 H2 m data r <> 0%Z.
+Proof.
+  intros NZ E. rewrite sign_pad_bytes in E. unfold be2z in E.
+  assert (Z0 : be2n (prab_bytes m data r) = 0%N) by lia.
+  apply be2n_zero in Z0. unfold prab_bytes in Z0. cbv zeta in Z0. apply Forall_app in Z0. destruct Z0 as [Zw _].
+  exact (NZ _ Zw).
+Qed.
+
+Lemma sign_loop_some fuel m data : forall stream foo, Forall byte stream ->
+  sign_loop H1 H2 qr fuel m data stream = Some foo ->
+  exists r, length r = K0 /\ Forall byte r /\ foo = sign_pad H1 H2 m data r /\ qr foo = true.
+Proof.
+  induction fuel; intros stream foo Bs E; cbn [sign_loop] in E; [discriminate|].
+  destruct (Nat.ltb_spec (length stream) K0); [discriminate|].
+  destruct (qr (sign_pad H1 H2 m data (firstn K0 stream))) eqn:Q.
+  - inversion E; subst. exists (firstn K0 stream). repeat split; auto.
+    + rewrite firstn_length. lia.
+    + apply Forall_firstn'. assumption.
+  - apply (IHfuel (skipn K0 stream)); [apply Forall_skipn'; assumption|exact E].
+Qed.
+
+Theorem sign_verify_ok m ksig data stream idx t :
+  roots_sound m -> digest_nonzero -> kid_ok ksig -> Forall byte stream ->
+  sign_text H1 H2 qr roots m ksig data stream idx = Some t ->
+  forall heap, verify_text H1 H2 m ksig heap data t = Accept.
+Proof.
+  intros RS NZ [Fk KM] Bs E heap. unfold sign_text in E.
+  destruct (Z.leb_spec (sizeinbase2 m) (Z.of_nat (mnsize_of m) * 8)); [discriminate|].
+  destruct (Nat.leb_spec (mnsize_of m) (md + K0)); [discriminate|].
+  destruct (sign_loop H1 H2 qr (S (length stream)) m data stream) as [foo|] eqn:L; [|discriminate].
+  destruct (nth_error (roots foo) idx) as [s|] eqn:N; [|discriminate].
+  inversion E; subst t. clear E.
+  rewrite verify_text_sig_text by assumption.
+  destruct (sign_loop_some _ _ _ _ _ Bs L) as (r & Lr & Br & -> & _).
+  apply nth_error_In in N. apply RS in N.
+  apply (verify_core_padded m heap data r s); auto. apply sign_pad_nonzero. assumption.
+Qed.
+
+(* all four roots verify, and so do the negated root and any representative modulo m *)
+Theorem roots_all_verify m heap data r s :
+  roots_sound m -> digest_nonzero ->
+  (Z.of_nat (mnsize_of m) * 8 < sizeinbase2 m)%Z -> (md + K0 < mnsize_of m)%nat -> length r = K0 -> Forall byte r ->
+  In s (roots (sign_pad H1 H2 m data r)) ->
+  verify_core H1 H2 m heap data s = Accept /\ verify_core H1 H2 m heap data (- s) = Accept /\
+  forall k, verify_core H1 H2 m heap data (s + k * m) = Accept.
+Proof.
+  intros RS NZ Hb Hm Lr Br Hin.
+  assert (A : verify_core H1 H2 m heap data s = Accept).
+  { apply (verify_core_padded m heap data r s); auto. apply sign_pad_nonzero; assumption. }
+  repeat split; [assumption|rewrite verify_core_neg; assumption|intros k; rewrite verify_core_shift; assumption].
+Qed.
+
+(* tamper evidence at the level of the padded value: two accepted nonzero squares that leave the same bytes in the
+   buffer are the same square -- a different square needs different (w, r*, gamma), hence new oracle answers *)
+Theorem export_injective s a b : (0 < s)%nat -> (0 < a)%Z -> (0 < b)%Z ->
+  (sizeinbase2 a <= 8 * Z.of_nat s)%Z -> (sizeinbase2 b <= 8 * Z.of_nat s)%Z ->
+  export_bytes s a = export_bytes s b -> a = b.
+Proof.
+  intros Hs Ha Hb Sa Sb E. rewrite !export_bytes_one in E by assumption.
+  apply (f_equal be2n) in E. rewrite !be2n_n2be in E.
+  apply sizeinbase2_le in Sa; try lia. apply sizeinbase2_le in Sb; try lia.
+  rewrite <- pow256 in Sa, Sb.
+  assert (Ta : (Z.to_N a < 256 ^ N.of_nat s)%N).
+  { apply N2Z.inj_lt. rewrite Z2N.id, N2Z.inj_pow, nat_N_Z by lia. exact Sa. }
+  assert (Tb : (Z.to_N b < 256 ^ N.of_nat s)%N).
+  { apply N2Z.inj_lt. rewrite Z2N.id, N2Z.inj_pow, nat_N_Z by lia. exact Sb. }
+  rewrite !N.mod_small in E by assumption. apply Z2N.inj in E; lia.
+Qed.
+
+(* ---- encrypt then decrypt --------------------------------------------------------------------------------- *)
+Definition saep_open (s : nat) (yy : bytes) : option bytes :=
+  let s2 := (2 * S0)%nat in
+  let r := firstn (s - s2) (skipn s2 yy) in
+  let Mt := bxor (firstn s2 yy) (tmcg_g H1 H2 s2 r) in
+  if all_zero (firstn S0 (skipn S0 Mt)) then Some (firstn S0 Mt) else None.
+
+Definition saep_bytes (m : Z) (value coins : bytes) : bytes :=
+  let s2 := (2 * S0)%nat in
+  let r := firstn (mnsize_of m - s2) coins in
+  bxor (firstn S0 value ++ zeros S0) (tmcg_g H1 H2 s2 r) ++ r.
+
+Lemma saep_pad_bytes m value coins : saep_pad H1 H2 m value coins = be2z (saep_bytes m value coins).
+Proof. reflexivity. Qed.
+
+Lemma all_zero_zeros n : all_zero (zeros n) = true.
+Proof. unfold all_zero, zeros. induction n; cbn; auto. Qed.
+
+Lemma saep_sizes m : saep_sizes_ok m = true -> (2 * S0 < mnsize_of m - 2 * S0)%nat /\ (2 * S0 + 1 < mnsize_of m)%nat.
+Proof.
+  unfold saep_sizes_ok, mnsize_of. change S0 with 20%nat. intros H.
+  apply andb_prop in H. destruct H as [H _]. apply andb_prop in H. destruct H as [_ H]. lia.
+Qed.
+
+Lemma saep_bytes_props m value coins :
+  saep_sizes_ok m = true -> length value = S0 -> Forall byte value ->
+  (mnsize_of m - 2 * S0 <= length coins)%nat -> Forall byte coins ->
+  length (saep_bytes m value coins) = mnsize_of m /\ Forall byte (saep_bytes m value coins) /\
+  forall rest, saep_open (mnsize_of m) (saep_bytes m value coins ++ rest) = Some value.
+Proof.
+  intros OK Lv Bv Lc Bc. destruct (saep_sizes m OK) as [Z1 Z2].
+  unfold saep_bytes. cbv zeta.
+  set (r := firstn (mnsize_of m - 2 * S0) coins).
+  set (Mt := firstn S0 value ++ zeros S0).
+  assert (Lr : length r = (mnsize_of m - 2 * S0)%nat) by (unfold r; rewrite firstn_length; lia).
+  assert (LM : length Mt = (2 * S0)%nat) by (unfold Mt; rewrite app_length, firstn_length, zeros_length; lia).
+  assert (Lg : length (tmcg_g H1 H2 (2 * S0) r) = (2 * S0)%nat) by apply tmcg_g_length.
+  assert (Lx : length (bxor Mt (tmcg_g H1 H2 (2 * S0) r)) = (2 * S0)%nat) by (rewrite bxor_length; lia).
+  repeat split.
+  - rewrite app_length, Lx, Lr. lia.
+  - apply Forall_app. split.
+    + apply bxor_byte; [|apply tmcg_g_byte]. unfold Mt. apply Forall_app. split; [apply Forall_firstn'; assumption|apply zeros_byte].
+    + unfold r. apply Forall_firstn'. assumption.
+  - intros rest. unfold saep_open. cbv zeta. rewrite <- app_assoc.
+    rewrite (firstn_exact _ _ _ Lx), (skipn_exact _ _ _ Lx), (firstn_exact _ _ _ Lr).
+    rewrite bxor_invol by lia. unfold Mt.
+    rewrite (skipn_exact (firstn S0 value) (zeros S0)) by (rewrite firstn_length; lia).
+    rewrite (firstn_all2 (zeros S0)) by (rewrite zeros_length; lia).
+    rewrite all_zero_zeros.
+    rewrite (firstn_exact (firstn S0 value) (zeros S0)) by (rewrite firstn_length; lia).
+    rewrite firstn_all2 by lia. reflexivity.
+Qed.
+
+(* roots that are not the encrypted value: refused by the redundancy test, whatever the buffer held *)
+Definition spurious_free (s : nat) (rho : Z) : Prop :=
+  (0 < rho)%Z /\ forall heap, saep_open s (buffer_after heap (export_bytes s rho)) = None.
+
+Lemma export_count_two s v : (0 < s)%nat -> (sizeinbase2 v / 8 <= Z.of_nat s)%Z -> (export_count s v <= 2)%nat.
+Proof.
+  intros Hs Hb. unfold export_count. destruct (Z.eqb_spec v 0); [lia|].
+  pose proof (sizeinbase2_pos v).
+  set (q := ((sizeinbase2 v + 8 * Z.of_nat s - 1) / (8 * Z.of_nat s))%Z).
+  assert (B : (sizeinbase2 v <= 8 * Z.of_nat s + 7)%Z).
+  { pose proof (Z.div_mod (sizeinbase2 v) 8). pose proof (Z.mod_pos_bound (sizeinbase2 v) 8). lia. }
+  assert (q < 3)%Z by (apply Z.div_lt_upper_bound; lia).
+  assert (0 <= q)%Z by (apply Z.div_pos; lia). lia.
+Qed.
+
+Lemma try_roots_step s heap rho rest : (0 < s)%nat -> (s <= slack)%nat -> spurious_free s rho ->
+  exists heap', try_roots H1 H2 s heap (rho :: rest) = try_roots H1 H2 s heap' rest.
+Proof.
+  intros Hs Hsl [Hp SF]. cbn [try_roots].
+  destruct (Z.leb_spec (sizeinbase2 rho / 8) (Z.of_nat s)); [|exists heap; reflexivity].
+  pose proof (export_count_two s rho Hs H) as C. pose proof (export_bytes_length s rho) as L.
+  destruct (Nat.ltb_spec (s + slack) (length (export_bytes s rho))); [nia|].
+  specialize (SF heap). unfold saep_open in SF. cbv zeta in SF.
+  destruct (all_zero _); [discriminate|]. eexists; reflexivity.
+Qed.
+
+Lemma try_roots_hit s heap yy value rest : (0 < s)%nat -> length yy = s -> Forall byte yy -> be2z yy <> 0%Z ->
+  (forall tl, saep_open s (yy ++ tl) = Some value) ->
+  try_roots H1 H2 s heap (be2z yy :: rest) = DecValue value.
+Proof.
+  intros Hs Ly By NZ Op. cbn [try_roots].
+  pose proof (be2z_range yy By) as R. rewrite Ly in R.
+  assert (SB : (sizeinbase2 (be2z yy) <= 8 * Z.of_nat s)%Z) by (apply sizeinbase2_le; lia).
+  destruct (Z.leb_spec (sizeinbase2 (be2z yy) / 8) (Z.of_nat s)).
+  2:{ assert (sizeinbase2 (be2z yy) / 8 <= Z.of_nat s)%Z by (apply Z.div_le_upper_bound; lia). lia. }
+  assert (EX : export_bytes s (be2z yy) = yy) by (rewrite <- Ly; apply export_be2z; try assumption; lia).
+  rewrite EX. destruct (Nat.ltb_spec (s + slack) (length yy)); [lia|].
+  unfold buffer_after. specialize (Op (skipn (length yy) heap)). unfold saep_open in Op. cbv zeta in Op.
+  destruct (all_zero _); [|discriminate]. inversion Op. reflexivity.
+Qed.
+
+Lemma try_roots_prefix s yy value : (0 < s)%nat -> (s <= slack)%nat -> length yy = s -> Forall byte yy -> be2z yy <> 0%Z ->
+  (forall tl, saep_open s (yy ++ tl) = Some value) ->
+  forall pre post heap, Forall (spurious_free s) pre ->
+  try_roots H1 H2 s heap (pre ++ be2z yy :: post) = DecValue value.
+Proof.
+  intros Hs Hsl Ly By NZ Op pre. induction pre as [|rho pre IH]; intros post heap F.
+  - apply try_roots_hit; assumption.
+  - apply Forall_cons_iff in F. destruct F as [Hrho Hpre]. cbn [app].
+    destruct (try_roots_step s heap rho (pre ++ be2z yy :: post) Hs Hsl Hrho) as [heap' ->]. apply IH. assumption.
+Qed.
+
+Lemma decrypt_text_enc_text m ksig heap kid v :
+  saep_sizes_ok m = true -> Forall (fun c => c <> bar) kid -> kid_matches ksig kid = true ->
+  decrypt_text H1 H2 qr roots m ksig heap (enc_text kid v) =
+  if qr v then try_roots H1 H2 (mnsize_of m) heap (roots v) else DecReject.
+Proof.
+  intros OK Fk KM. destruct (framed_parse str_enc kid v str_enc_nobar Fk) as (P1 & P2 & P3).
+  unfold decrypt_text, enc_text. rewrite OK. cbn [negb]. rewrite P1, P2, KM. cbn [negb]. rewrite P3, base62_roundtrip. reflexivity.
+Qed.
+
+(* SAEP round trip for moduli up to 8199 bits (mnsize <= 1024): see decrypt_overflow for larger ones *)
+Theorem encrypt_decrypt_ok_partial m ksig value coins t :
+  kid_ok ksig -> (mnsize_of m <= slack)%nat ->
+  length value = S0 -> Forall byte value -> (mnsize_of m - 2 * S0 <= length coins)%nat -> Forall byte coins ->
+  encrypt_text H1 H2 m ksig value coins = Some t ->
+  let x := saep_pad H1 H2 m value coins in
+  let c := ((x * x) mod Z.abs m)%Z in
+  x <> 0%Z -> qr c = true ->
+  (exists pre post, roots c = pre ++ x :: post /\ Forall (spurious_free (mnsize_of m)) pre) ->
+  forall heap, decrypt_text H1 H2 qr roots m ksig heap t = DecValue value.
+Proof.
+  intros [Fk KM] Hsl Lv Bv Lc Bc E x c NZ Q (pre & post & Rt & SF) heap.
+  unfold encrypt_text in E. destruct (saep_sizes_ok m) eqn:OK; [|discriminate]. inversion E; subst t. clear E.
+  fold x. fold c. rewrite decrypt_text_enc_text by assumption. rewrite Q, Rt.
+  destruct (saep_bytes_props m value coins OK Lv Bv Lc Bc) as (Ly & By & Op).
+  destruct (saep_sizes m OK) as [Z1 Z2].
+  unfold x in *. rewrite saep_pad_bytes in *.
+  apply try_roots_prefix; auto. lia.
+Qed.
+
+(* the export buffer of decrypt is too small for moduli above 8199 bits: a root with more than 8*mnsize bits
+   is written as two words (no counterpart of fix b19627f here) *)
+Theorem decrypt_overflow : exists s root heap,
+  (sizeinbase2 root / 8 <= Z.of_nat s)%Z /\ try_roots H1 H2 s heap [root] = DecOverflow.
+Proof.
+  exists (Z.to_nat 1025), (2 ^ 8200)%Z, []. split; [vm_compute; discriminate|].
+  cbn [try_roots].
+  replace (sizeinbase2 (2 ^ 8200) / 8 <=? Z.of_nat (Z.to_nat 1025))%Z with true by (vm_compute; reflexivity).
+  rewrite export_bytes_length.
+  replace (export_count (Z.to_nat 1025) (2 ^ 8200)) with 2%nat by (vm_compute; reflexivity).
+  replace (Z.to_nat 1025 + slack <? 2 * Z.to_nat 1025)%nat with true by (vm_compute; reflexivity).
+  reflexivity.
+Qed.
+
+(* ---- key validation ------------------------------------------------------------------------------------------ *)
+Variable jacobi : Z -> Z -> Z.
+Variable is_prime : Z -> bool.
+
+Lemma challenge_cond cond fuel m : forall input foo input',
+  challenge H1 H2 cond fuel m input = Some (foo, input') -> cond foo = true.
+Proof.
+  induction fuel; intros input foo input' E; cbn [challenge] in E; [discriminate|].
+  destruct (cond _) eqn:C.
+  - inversion E; subst. exact C.
+  - eapply IHfuel. exact E.
+Qed.
+
+Definition round_ok (cond : Z -> bool) (eqn : Z -> Z -> bool) (cr : Z * Z) : Prop :=
+  cond (fst cr) = true /\ eqn (fst cr) (snd cr) = true.
+
+Lemma stage_rounds_sound cond eqn fuel m rounds : forall s input tr s' input',
+  stage_rounds H1 H2 cond eqn rounds fuel m s input = @Ok _ (tr, s', input') ->
+  length tr = rounds /\ Forall (round_ok cond eqn) tr.
+Proof.
+  induction rounds; intros s input tr s' input' E; cbn [stage_rounds] in E.
+  - inversion E; subst. split; [reflexivity|constructor].
+  - destruct (challenge H1 H2 cond fuel m input) as [[foo inp1]|] eqn:C; [|discriminate].
+    destruct (split_at hat s) as [[vs s1]|]; [|discriminate].
+    destruct (decode62 vs) as [resp|]; [|discriminate].
+    destruct (eqn foo resp) eqn:Q; [|discriminate].
+    destruct (stage_rounds H1 H2 cond eqn rounds fuel m s1 inp1) as [| |[[tr1 s2] inp2]] eqn:R; try discriminate.
+    inversion E; subst. destruct (IHrounds _ _ _ _ _ R) as [L F].
+    split; [cbn; lia|]. constructor; [|assumption]. split; [eapply challenge_cond; exact C|exact Q].
+Qed.
+
+Lemma run_stage_sound minimum cond eqn fuel m s input n tr s' input' :
+  run_stage H1 H2 minimum cond eqn fuel m s input = @Ok _ (n, tr, s', input') ->
+  (minimum <= Z.of_N n)%Z /\ (0 < n)%N /\ N.of_nat (length tr) = n /\ Forall (round_ok cond eqn) tr.
+Proof.
+  unfold run_stage, stage_header. intros E.
+  destruct (split_at hat s) as [[cs s1]|]; [|discriminate].
+  destruct (strtoul_full cs) as [c|]; [|discriminate].
+  destruct (N.eqb_spec c 0); [discriminate|].
+  destruct (Z.ltb_spec (Z.of_N c) minimum); [discriminate|].
+  destruct (stage_rounds H1 H2 cond eqn (rounds_of c s1) fuel m s1 input) as [| |[[tr1 s2] inp2]] eqn:R; try discriminate.
+  destruct (N.eqb_spec (N.of_nat (length tr1)) c); [|discriminate].
+  inversion E; subst. destruct (stage_rounds_sound _ _ _ _ _ _ _ _ _ _ R) as [_ F].
+  repeat split; try assumption; lia.
+Qed.
+
+Definition stage_valid (minimum : Z) (cond : Z -> bool) (eqn : Z -> Z -> bool) : Prop :=
+  exists (n : N) (tr : list (Z * Z)),
+    (minimum <= Z.of_N n)%Z /\ N.of_nat (length tr) = n /\ Forall (round_ok cond eqn) tr.
+
+Definition nizk_valid (k : pubkey) : Prop :=
+  let m := k_m k in
+  (0 <= m)%Z /\
+  stage_valid TMCG_KEY_NIZK_STAGE1 (cond_unit m) (eqn1 m) /\
+  stage_valid TMCG_KEY_NIZK_STAGE2 (cond_unit m) (eqn2 m) /\
+  stage_valid TMCG_KEY_NIZK_STAGE3 (cond_jac jacobi m) (eqn3 m (k_y k)).
+
+Lemma nizk_check_sound fuel k : nizk_check H1 H2 jacobi fuel k = @Ok _ true -> nizk_valid k.
+Proof.
+  unfold nizk_check, nizk_valid. cbv zeta. intros E.
+  destruct (Z.ltb_spec (k_m k) 0); [discriminate|].
+  destruct (cm (k_nizk k) str_nzk hat) as [s0|]; [|discriminate].
+  destruct (run_stage H1 H2 TMCG_KEY_NIZK_STAGE1 _ _ fuel (k_m k) s0 _) as [| |[[[n1 tr1] s1] i1]] eqn:R1; try discriminate.
+  destruct (run_stage H1 H2 TMCG_KEY_NIZK_STAGE2 _ _ fuel (k_m k) s1 i1) as [| |[[[n2 tr2] s2] i2]] eqn:R2; try discriminate.
+  destruct (run_stage H1 H2 TMCG_KEY_NIZK_STAGE3 _ _ fuel (k_m k) s2 i2) as [| |[[[n3 tr3] s3] i3]] eqn:R3; try discriminate.
+  apply run_stage_sound in R1. apply run_stage_sound in R2. apply run_stage_sound in R3.
+  destruct R1 as (A1 & _ & B1 & C1). destruct R2 as (A2 & _ & B2 & C2). destruct R3 as (A3 & _ & B3 & C3).
+  split; [assumption|]. split; [|split].
+  - exists n1, tr1. repeat split; assumption.
+  - exists n2, tr2. repeat split; assumption.
+  - exists n3, tr3. repeat split; assumption.
+Qed.
+
+Theorem check_accept_implies fuel heap k :
+  check H1 H2 jacobi is_prime fuel heap k = @Ok _ true ->
+  jacobi (k_y k) (k_m k) = 1%Z /\ Z.odd (k_m k) = true /\ is_prime (k_m k) = false /\
+  verify_text H1 H2 (k_m k) (k_sig k) heap (selfsig_data k) (k_sig k) = Accept /\
+  (contains str_NIZK (k_type k) = true -> nizk_valid k).
+Proof.
+  unfold check. cbv zeta. intros E.
+  destruct (Z.eqb_spec (jacobi (k_y k) (k_m k)) 1); cbn [negb] in E; [|discriminate].
+  destruct (Z.odd (k_m k)); cbn [negb] in E; [|discriminate].
+  destruct (is_prime (k_m k)); [discriminate|].
+  destruct (verify_text H1 H2 (k_m k) (k_sig k) heap (selfsig_data k) (k_sig k)); try discriminate.
+  destruct (fermat_reject (k_m k)); [discriminate|].
+  split; [assumption|]. split; [reflexivity|]. split; [reflexivity|]. split; [reflexivity|].
+  intros C. rewrite C in E. cbn [negb] in E. eapply nizk_check_sound. exact E.
+Qed.
+
+(* what the stage equations say *)
+Lemma congr_spec a b m : congr a b m = true <-> ((a - b) mod Z.abs m = 0)%Z.
+Proof. unfold congr. apply Z.eqb_eq. Qed.
+Lemma eqn1_spec m c r : eqn1 m c r = true <-> powm r m m = c.
+Proof. unfold eqn1. apply Z.eqb_eq. Qed.
+Lemma cond_unit_spec m c : cond_unit m c = true <-> Z.gcd c m = 1%Z.
+Proof. unfold cond_unit. apply Z.eqb_eq. Qed.
+
+(* the Fermat-number branch of check() can never be taken: m - 1 = 2^k with k = bit length of m is impossible *)
+Lemma fermat_branch_dead m : (0 < m)%Z -> fermat_reject m = false.
+Proof.
+  intros Hm. unfold fermat_reject.
+  destruct (Z.eqb_spec (m - 1) (2 ^ sizeinbase2 m)); [|reflexivity]. exfalso.
+  unfold sizeinbase2 in e. destruct (Z.eqb_spec m 0); [lia|]. rewrite Z.abs_eq in e by lia.
+  destruct (Z.log2_spec m Hm) as [_ U]. rewrite <- Z.add_1_r in U. lia.
+Qed.
 End RabinProofs.
